@@ -11,7 +11,7 @@
 From Coq Require Import List NArith ZArith Bool.
 From Abasic Require Import Model.Bytes Model.Num Model.Token Model.Data Model.Lexer Gen.Tables
      Model.State Model.Eval Model.Interp Model.Analyzer Proofs.LexerRanges Proofs.AnalyzerProofs
-     Proofs.AnalyzerSafety.
+     Proofs.AnalyzerSafety Proofs.AnalyzerTermination.
 Import ListNotations.
 Local Open Scope nat_scope.
 
@@ -92,11 +92,22 @@ Theorem C05_diagnostics_well_formed : forall fuel text,
          (an_messages (analyze fuel text)).
 Proof. exact diagnostics_well_formed. Qed.
 
-(* NOT proved: that the model's fuel suffices (an_result <> OutOfFuel for the
-   fuel the check uses) — termination of the Rust loops is what the model's
-   fuel stands for; it is checked on every run by the correspondence (the
-   model's an_result and every mapped range must equal the implementation's,
-   which runs under catch_unwind) and by the oracle. *)
+(* The analysis TERMINATES, for every text.  The Rust analyzer's loops and its
+   recursion are modelled with fuel; that the fuel suffices is what their
+   termination is in the model: with fuel above a bound that depends only on
+   the longest stored line and the nesting cap ([line_bound text] = longest
+   token list + max_nesting) the result is never OutOfFuel
+   (Proofs/AnalyzerTermination.v: the cursor never moves backwards; an
+   expression that succeeds consumes a token; every loop iteration that
+   continues consumes a token; recursion consumes one unit of fuel per nesting
+   level).  Together with C05_never_panics: for enough fuel the analysis returns
+   a result, for every text. *)
+Theorem C05_terminates : forall fuel text,
+  line_bound text < fuel -> an_result (analyze fuel text) <> OutOfFuel.
+Proof. exact analysis_terminates. Qed.
+
+Theorem C05_total : forall fuel text, line_bound text < fuel -> an_result (analyze fuel text) = Ok tt.
+Proof. exact analysis_total. Qed.
 
 (* non-vacuity: a file with a duplicate number, a blank line, an unnumbered
    line, an untokenizable line with a multi-byte illegal character *)
@@ -119,3 +130,5 @@ Print Assumptions C05_error_range_end.
 Print Assumptions C05_never_panics.
 Print Assumptions C05_every_diagnostic_maps.
 Print Assumptions C05_diagnostics_well_formed.
+Print Assumptions C05_terminates.
+Print Assumptions C05_total.
